@@ -154,7 +154,7 @@ def run_one(job):
         res = {}
         for pr in props:
             r = subprocess.run(["/venv/bin/python", "-B", "-m", "sa.run", pr, "--tier", "quick"], cwd=VERIF, env=env, capture_output=True, text=True)
-            rep = [l.strip()[:200] for l in r.stdout.splitlines() if l.startswith("  report:")][:1]
+            rep = [l.strip()[:200] for l in r.stdout.splitlines() if l.startswith(("  report:", "ANALYSIS-ERROR"))][:1]
             res[pr] = {"exit": r.returncode, "report": rep}
         codes = [v["exit"] for v in res.values()]
         status = "caught" if 1 in codes else ("analysis-error" if 2 in codes else "missed")
